@@ -46,6 +46,12 @@ def run(chk, replay=None):
     chk.model("MC_FileSys", "MC_FileSys_tmp", what="MC_FileSys tmp+rename protocol: FileCompleteOrAbsent in every state incl. all partial writes")
     chk.model("MC_FileSys", "MC_FileSys_direct", what="MC_FileSys direct protocol (as coded before fix 4d363c6): invariant violated",
               expect_violation="FileCompleteOrAbsent")
+    # composition with the session: kill anywhere, restart from the file, same end (safety + liveness under fairness)
+    comp = vt.tlc("Crash", "Crash_tmp", workers=4, tag="C18")
+    chk.add_tlc("Crash (session x file protocol x up to 3 kills, tmp+rename): FileOK, NeverLost, SameEnd, PROPERTY Completes", comp)
+    if comp.rc != 0 or "No error has been found" not in comp.out:
+        raise vt.MachineryError("Crash.tla (tmp+rename) failed:\n" + comp.tail())
+    chk.model("Crash", "Crash_direct", what="Crash with the direct protocol: a killed run can be lost (NeverLost violated)", expect_violation="NeverLost")
     exe = vt.build(*BUILDS[0][0])
     lib = build_interposer()
     trace = replay or chk.path("trace.ndjson")
